@@ -56,6 +56,7 @@ def check(spec, stats=None):
     if tr.exc is not None:
         raise tr.exc
     require(tr.user_array_modified == 0, "user-gradient-array-untouched", "the array returned by the user's gradient was modified by the library")
+    require(tr.bad_args == 0, "user-callables-receive-args", f"{tr.bad_args} call(s) of fun/jac did not receive exactly the `args` tuple given to the solver")
     s = scale_of(rspec, tr)
     if not np.isfinite(s) or s <= 0:
         raise Discard("scaler value not positive finite")
@@ -104,7 +105,7 @@ def check(spec, stats=None):
 @st.composite
 def strategy(draw):
     r = draw(run_spec(families=ALL_FAMILIES, n_max=8, jac_modes=("callable", "callable", "callable", None, "2-point", "3-point", "cs"),
-                      maxiter=(0, 30), maxfun=(1, 150), small_ls=True, units=True, ftols=(0.0, 1e-12, 1e-5), gtols=(1e-8, 1e-5, 1e-3),
+                      maxiter=(0, 30), maxfun=(1, 150), small_ls=True, units=True, extras=True, ftols=(0.0, 1e-12, 1e-5), gtols=(1e-8, 1e-5, 1e-3),
                       with_scaler=True, with_ftarget=True, allow_degenerate=True))
     nr = draw(st.sampled_from([0, 0, 1, 2, 3]))
     restarts = [{"dit": draw(st.sampled_from([-2, 0, 1, 3, 10])), "dfun": draw(st.sampled_from([-5, 0, 2, 10, 100])), "maxcor": draw(st.sampled_from([None, None, 1, 4]))}
